@@ -190,6 +190,12 @@ def fam_mha(st, probe):
         elif r < 0.32 and p["reshape"] == "zero":
             near = "symbolic-heads"                              # num_heads not static: rewrite returns None
             p["decl_q4"] = True
+        out_tgt = None
+        if near is None and i < n and rng.random() < 0.3:
+            # the final Reshape's target in its other spellings, incl. ones that do NOT denote [B,S,D] (the known finding's class)
+            D_ = H * Dh
+            out_tgt = pick(rng, [[0, 0, -1], [B, S, D_], [0, -1, D_], [-1, S, D_], [B, S, -1], [-1, D_], [0, -1, Dh], [B * S, 1, D_], [1, -1, D_]])
+            p["out_reshape"] = out_tgt
         g = mha_model(p)
         obs = {}
 
@@ -226,10 +232,19 @@ def fam_mha(st, probe):
         cls = (fam, p["dtype"], mode, p["key_kind"], p["reshape"], tuple(sorted(decl)), tuple(p["mask"]) if "mask" in p and near else ("mask" in p and len(p["mask"])), near,
                p["scale"], "scale_value" in p)
         structural = near in (None, "mask-rank3", "mask-dim2-other-symbol", "symbolic-heads")
+        if out_tgt is not None:
+            finding = "C19:mha:output-reshape-not-checked"          # reported only when the outputs really differ
+            cls = cls + ("out_reshape", len(out_tgt), -1 in out_tgt, 0 in out_tgt)
+        po = {}
         fired, m2 = probe(st, fam, g, fn, {k: v for k, v in p.items()}, expect=None if structural else False, finding=finding, cls=cls,
-                          slack=4.0 if p["dtype"] == "float16" else 2.0)
+                          slack=4.0 if p["dtype"] == "float16" else 2.0, out=po)
         if fired is None:
             continue
+        if obs.get("mha") and structural and po.get("before") is not None and po.get("after") is not None:
+            # C19_mha_output_reshape_same_iff: the fused graph's output has the pattern's shape iff the target denotes [B,S,H*Dv]
+            same = np.asarray(po["before"][0][0]).shape == np.asarray(po["after"][0]).shape
+            tgt = p.get("out_reshape", [0, 0, H * Dh])
+            st.add_case("attn", f"COutReshape {cz(B)} {cz(S)} {cz(H)} {cz(Dh)} {clist(tgt, cz)} {cbool(same)}", (fam, p, same))
         mha = obs.get("mha")
         fired_n += bool(mha)
         if not structural or "shapes" not in obs:
@@ -352,6 +367,11 @@ def fam_sdpa_lowering(st, probe):
         sval = pick(rng, [1.0 / math.sqrt(Dh), 0.3])
         score = g.op("Mul", [g.op("MatMul", [q, kt]), g.const(sval, dt)])
         mask = pick(rng, [None, [B, 1, S, T], [1, 1, 1, T], [S, T], [H, S, T], [T]])
+        mask_finding = None
+        if B == 1 and rng.random() < 0.35:
+            # a mask that ENLARGES the batch / head dim of the scores (legal NumPy broadcast; no fused operator can express it)
+            mask = pick(rng, [[3, 1, S, T], [2, H, 1, T]]) if H > 1 or rng.randrange(2) else [3, 1, S, T]
+            mask_finding = "C19:mha:mask-batch-exceeds-query-batch"
         if mask is not None:
             score = g.op("Add", [score, g.inp("mask", dt, mask)])
         y = g.op("MatMul", [g.op("Softmax", [score], axis=-1), v])
@@ -362,9 +382,12 @@ def fam_sdpa_lowering(st, probe):
 
         def fn(m, _obs=obs):
             ShapeInferencePass()(m)
-            c = fuse_sdpa(m, apply_shape_inference=True)
             codes = Codes()
+            vals0 = values_by_name(m)
+            _obs["decl"] = [codes.shape(vals0.get(nm)) for nm in ("query", "key", "value")] + [codes.shape(vals0.get("mask")) if "mask" in vals0 else "absent"]
+            c = fuse_sdpa(m, apply_shape_inference=True)
             sd = [nd for nd in m.graph if nd.op_type == "SDPA"]
+            _obs["sdpa_fired"] = bool(sd)
             if sd:
                 _obs["shapes"] = [codes.shape(x) for x in sd[0].inputs[:3]]
                 _obs["scale"] = sd[0].attributes.get_float("scale", None)
@@ -374,8 +397,15 @@ def fam_sdpa_lowering(st, probe):
                 _obs["mha"] = (mh[0].attributes.get_int("num_heads", None), mh[0].attributes.get_float("scale", None))
             return c2
         # symbolic head count: fuse_sdpa still produces the intermediate SDPA op, nothing can lower it afterwards
-        finding = "C19:pipeline:sdpa-not-lowered-with-symbolic-num-heads" if sym == "H" else None
-        fired, m2 = probe(st, fam, g, fn, p, expect=None, finding=finding, cls=(fam, dt, kind, sym, mask is not None and len(mask)), slack=4.0 if dt == "float16" else 2.0)
+        finding = "C19:pipeline:sdpa-not-lowered-with-symbolic-num-heads" if sym == "H" else mask_finding
+        fired, m2 = probe(st, fam, g, fn, p, expect=None, finding=finding, cls=(fam, dt, kind, sym, mask is not None and len(mask), mask_finding is not None),
+                          slack=4.0 if dt == "float16" else 2.0)
+        if fired is not None and "decl" in obs:
+            dq, dk, dv, dm = obs["decl"]
+            mask_c = "None" if dm == "absent" else f"(Some {cshape(dm)})"
+            st.add_case("attn", f"CSdpaCheck @sdpa_repaired@ {cbool(kind != 'BSHd')} {cshape(dq)} {cshape(dk)} {cshape(dv)} {mask_c} {cbool(obs['sdpa_fired'])}", (fam, p, obs))
+            if sym == "H" and "sdpa_repaired" not in st.flags:
+                st.flags["sdpa_repaired"] = not obs["sdpa_fired"]      # the witness class of C19_sdpa_check_as_read_refuted decides the variant
         if fired is None or "shapes" not in obs:
             continue
         fired_n += bool(obs.get("mha"))
@@ -384,6 +414,24 @@ def fam_sdpa_lowering(st, probe):
         st.add_case("attn", f"CSdpaMha {cbool(kind != 'BSHd')} {cshape(sq)} {cshape(sk)} {cshape(sv)} {observed}", (fam, p, obs))
         if "mha" in obs and ((obs["mha"][1] is None) != (obs["scale"] is None) or (obs["scale"] is not None and abs(obs["mha"][1] - obs["scale"]) > 1e-6)):
             ctx.tie_broken("correspondence", f"{fam}:scale", f"{p}: SDPA scale {obs['scale']} lowered to {obs['mha']}")
+    if "sdpa_repaired" not in st.flags:
+        # no symbolic-head instance was drawn: probe the witness of C19_sdpa_check_as_read_refuted directly
+        g = G(opset=18)
+        q = g.inp("query", "float32", [2, "H", 3, 4], [2, 2, 3, 4])
+        k = g.inp("key", "float32", [2, "H", 5, 4], [2, 2, 5, 4])
+        v = g.inp("value", "float32", [2, "H", 5, 4], [2, 2, 5, 4])
+        sc = g.op("Mul", [g.op("MatMul", [q, g.op("Transpose", [k], perm=[0, 1, 3, 2])]), g.const(0.5, "float32")])
+        g.op("Identity", [g.op("MatMul", [g.op("Softmax", [sc], axis=-1), v])], out="y")
+        g.out("y", "float32", None)
+        seen = {}
+
+        def fnw(m):
+            ShapeInferencePass()(m)
+            c = fuse_sdpa(m, apply_shape_inference=True)
+            seen["sdpa"] = any(nd.op_type == "SDPA" for nd in m.graph)
+            return replace_sdpa_by_mha(m)
+        probe(st, fam, g, fnw, {"witness": "symbolic head count"}, finding="C19:pipeline:sdpa-not-lowered-with-symbolic-num-heads", cls=(fam, "finding", "symbolic-H"))
+        st.flags["sdpa_repaired"] = not seen.get("sdpa", False)
     if fired_n < (4 if ctx.tier == "quick" else 30):
         ctx.tie_broken("harness", "generator-degenerate:sdpa_via_mha", f"lowered on {fired_n} instances")
 
@@ -699,6 +747,45 @@ def cos_sin_model(p):
     return g
 
 
+def cache_case(st, g, m2, p, fam):
+    """Observe the number of rows of the cos cache the rewritten model builds for one concrete feed, together with the position
+    ids of that feed, and let Coq compare it with cache_rows (variant flag cs_len_guard)."""
+    import onnx
+    from harness.c19_build import TPT, feeds_for
+    try:
+        rn = [nd for nd in m2.graph.node if nd.op_type == "RotaryEmbedding" and nd.domain == MS]
+        if not rn:
+            return
+        m3 = onnx.ModelProto()
+        m3.CopyFrom(m2)
+        have = {o.name for o in m3.graph.output} | {i.name for i in m3.graph.input}
+        pos_name, cos_name = rn[0].input[1], rn[0].input[2]
+        if any(i.name == cos_name for i in m3.graph.initializer):
+            return                                   # constant cache (position ids constant / max_pos_id configured): not the run-time path
+        feed = feeds_for(g, st.np_rng)
+        outs = None
+        for cos_type in (TPT[p["dtype"]], onnx.TensorProto.FLOAT):
+            m3 = onnx.ModelProto()
+            m3.CopyFrom(m2)
+            for nm, et in ((pos_name, onnx.TensorProto.INT64), (cos_name, cos_type)):
+                if nm not in {o.name for o in m3.graph.output} and nm not in {i.name for i in m3.graph.input}:
+                    m3.graph.output.append(onnx.helper.make_tensor_value_info(nm, et, None))
+            try:
+                outs = ort_run(m3, feed)
+                break
+            except Exception:
+                continue
+        if outs is None:
+            st.stat(fam, "cache_rows_unobservable")
+            return
+        names = [o.name for o in m3.graph.output]
+        ids = [int(v) for v in np.asarray(outs[names.index(pos_name)]).reshape(-1)] if pos_name not in feed else [int(v) for v in np.asarray(feed[pos_name]).reshape(-1)]
+        rows = int(np.asarray(outs[names.index(cos_name)]).shape[0])
+        st.add_case("cs", f"CCache @cs_len_guard@ {clist(ids, cnat)} {cnat(p['S'])} {cnat(rows)}", (fam, p, ids, rows))
+    except Exception as e:       # the rewritten model does not run (a finding class as read): reported by the direct oracle
+        st.stat(fam, "cache_rows_unobservable")
+
+
 def fam_cos_sin(st, probe):
     import onnxscript.optimizer
     from onnxscript.rewriter.ort_fusions.cos_sin_cache import fuse_cos_sin_cache
@@ -706,7 +793,8 @@ def fam_cos_sin(st, probe):
     ctx, rng = st.ctx, st.ctx.rng
     fam = "cos_sin_cache"
     fired_n = 0
-    for i in range(14 if ctx.tier == "quick" else 100):
+    n_cs = 14 if ctx.tier == "quick" else 100
+    for i in range(n_cs + 2):
         B, H, S = rng.randrange(1, 3), rng.randrange(1, 4), rng.randrange(1, 6)
         D = pick(rng, [2, 4, 8, 16])
         p = dict(dtype=pick(rng, ["float32", "float32", "float16"]), B=B, H=H, S=S, D=D, pos_rank=pick(rng, [2, 2, 1]), wseed=i, max_pos=pick(rng, [4, 9, 17]))
@@ -714,6 +802,11 @@ def fam_cos_sin(st, probe):
             p["B"] = B = 1
         near = finding = None
         u = rng.random()
+        if i >= n_cs:
+            # always present: the two sides of C19_cs_position_batch_differs_iff -- position_ids [1,S] and [B,S] against a batch of 2
+            B = 2
+            p.update(B=2, pos_rank=2, dtype="float32")
+            u = 0.35 if i == n_cs else 0.9
         if u < 0.1:
             near, p["inv_kind"] = "inv-freq-not-constant", "input"
         elif u < 0.2 and p["pos_rank"] == 2:
@@ -753,12 +846,24 @@ def fam_cos_sin(st, probe):
                                      num_heads=nd.attributes.get_int("num_heads", None), interleaved=nd.attributes.get_int("interleaved", None))
             onnxscript.optimizer.optimize(m)          # inline a _fusion RotaryEmbedding function that was not consumed
             return c2
-        fired, m2 = probe(st, fam, g, fn, p, expect=None, finding=finding, cls=(fam, p["dtype"], p["pos_rank"], near, p.get("expand", False), "pos_B" in p, D),
-                          slack=4.0 if p["dtype"] == "float16" else 2.0)
+        if near is None and finding is None and i < n_cs and rng.random() < 0.35:
+            p["pos_kind"] = "input"           # arbitrary ids in [0, 4): repeated / padded positions (max + 1 may be below S)
+            finding = "C19:cos_sin_cache:cache-shorter-than-sequence"      # (fixed) class: reported under this key if it fails
+            g = cos_sin_model(p)
+        po = {}
+        fired, m2 = probe(st, fam, g, fn, p, expect=None, finding=finding, cls=(fam, p["dtype"], p["pos_rank"], near, p.get("expand", False), "pos_B" in p, D,
+                                                                                    p.get("pos_kind", "offset")),
+                          slack=4.0 if p["dtype"] == "float16" else 2.0, out=po)
         if fired is None:
             continue
         fu = obs.get("fused")
         fired_n += bool(fu)
+        if fu:
+            cache_case(st, g, m2, p, fam)
+            # C19_cs_batch_differs_spec: the fused graph differs from / fails where the pattern ran iff position_ids has not x's batch
+            pb = 1 if p["pos_rank"] == 1 else p.get("pos_B", B)
+            if p.get("pos_kind", "offset") == "offset":
+                st.add_case("cs", f"CBatch {cnat(pb)} {cnat(B)} {cbool(bool(po.get('bad')))}", (fam, p, po.get("bad")))
         if not obs.get("rot"):
             continue               # the rotate-half rule did not fire (its own family): nothing for this rule to match
         if "inv" not in obs or finding is not None:      # finding classes: after a fix the rule may refuse
@@ -780,6 +885,12 @@ def fam_cos_sin(st, probe):
             c2 = fuse_cos_sin_cache(m)
             onnxscript.optimizer.optimize(m)
             return c2
-        probe(st, fam, cos_sin_model(pp), fn2, pp, finding="C19:cos_sin_cache:cache-shorter-than-sequence", cls=(fam, "finding", "short-cache", rank))
+        po = {}
+        f_, m2_ = probe(st, fam, cos_sin_model(pp), fn2, pp, finding="C19:cos_sin_cache:cache-shorter-than-sequence", cls=(fam, "finding", "short-cache", rank), out=po)
+        if rank == 2 and f_:
+            # all ids < 4 < S = 6: the witness class of C19_cache_rows_as_read_refuted; the repaired graph contains the Max with S
+            st.flags["cs_len_guard"] = any(nd.op_type == "Max" for nd in m2_.graph.node)
+        if f_ and not po.get("bad"):
+            cache_case(st, cos_sin_model(pp), m2_, pp, fam)
     if fired_n < (4 if ctx.tier == "quick" else 30):
         ctx.tie_broken("harness", "generator-degenerate:cos_sin_cache", f"fused on {fired_n} instances")
